@@ -104,6 +104,8 @@ type caseIn struct {
 	// Raft: the controller is the coordinator's one of a real cluster.RaftCluster (InitCluster over a BasicCluster and a
 	// core.Storage whose kv can be made to fail its writes); heartbeats go through RaftCluster.HandleRegionHeartbeat
 	Raft bool `json:"raft,omitempty"`
+	// Scenario names a fixed history that is not made of driver events ("grpc-heartbeat": grpc_phase.go)
+	Scenario string `json:"scenario,omitempty"`
 	Events         []event `json:"events"`
 	Gen            string  `json:"gen,omitempty"`
 }
@@ -1721,6 +1723,12 @@ func main() {
 			l = []caseIn{c}
 		}
 		for i := range l {
+			if l[i].Scenario == "grpc-heartbeat" {
+				if o, err := grpcHeartbeatCase(); err == nil {
+					emit(o)
+				}
+				continue
+			}
 			l[i].Gen = "corpus"
 			emit(runCase(rec, &l[i], nil, "", 0))
 		}
@@ -1740,6 +1748,11 @@ func main() {
 			emit(runCase(rec, c, nil, "", 0))
 		}
 		emit(runCase(rec, pushRoundCase(), nil, "", 0))
+		if o, err := grpcHeartbeatCase(); err == nil {
+			emit(o)
+		} else {
+			R.Notes = append(R.Notes, "grpc-heartbeat phase skipped, the real server did not come up: "+err.Error())
+		}
 		emit(runCase(rec, &caseIn{MaxWaiting: 5, Gen: "entry-race", Events: []event{{K: "entryrace", ID: 4000}}}, nil, "", 0))
 		for k := 0; k < *n; k++ {
 			r := master.Fork(uint64(k))
